@@ -79,7 +79,7 @@ def mk_version(eng, name, n):
     return '.'.join(str(c) for c in comps), comps
 
 
-META = {'models': {'M': {'public': True, 'params': [], 'attrs': ['i', 'o']}}}
+META = {'models': {'M': {'public': True, 'params': [], 'attrs': ['i', 'o']}}, 'extra_methods': ['ping']}
 
 
 _MISSING = object()
@@ -108,6 +108,11 @@ class _Base(mosaik_api_v3.Simulator):
 
     def setup_done(self):
         self.calls.append(('setup_done',))
+
+    def ping(self, v):
+        # an extra method (meta['extra_methods']): valid for every API version
+        self.calls.append(('ping', v))
+        return ['pong', v]
 
     def _step(self, args):
         self.calls.append(('step', len(args), args[0], copy.deepcopy(args[1])))
@@ -256,6 +261,13 @@ def adapt(kind, ncomp, explicit, has_type, twin_first=False, second=False):
                 eng.check(sx.calls[0][1] == compliant, 'C15.time_resolution',
                           f'time_resolution passed={sx.calls[0][1]} but signatures compliant={compliant}: {desc}', {'fp': fp})
                 eng.check(w.sims['X'].type == typ, 'C15.type', f'type is {w.sims["X"].type}, announced {typ if has_type else "none (default time-based)"}: {desc}', {'fp': fp})
+                # an extra method announced in the meta reaches the simulator and its result comes back, whatever the version
+                try:
+                    pong = x.ping(7)
+                except Exception as e:  # noqa
+                    pong = f'{type(e).__name__}: {e}'
+                eng.check(pong == ['pong', 7] and ('ping', 7) in sx.calls, 'C15.same',
+                          f'extra method call ping(7) returned {pong!r}, simulator received {[c for c in sx.calls if c[0] == "ping"]}: {desc}', {'fp': fp + ['extra']})
                 # a current-version twin in the same scenario, both fed by a producer
                 if p is None:
                     p = w.start('T', sim_id='P', version='3.0', typ='time-based')
